@@ -144,8 +144,15 @@ func (s *Sched) Hook(point string, a, b int64) {
 		// the healer does not process its first wound before the validator finished the directory/symlink pass
 		// ... and, for the file wounds, stays behind the validator by a bounded delay
 		if point == "heal-wound" {
-			s.waitUntil(func() bool { return s.dirsDone }, 200*time.Millisecond)
-			time.Sleep(2 * time.Millisecond)
+			// only the FIRST wound waits for the directory pass (bounded): with more wounds than the wound channel
+			// holds the validator cannot finish that pass while the healer is held back, and holding every wound
+			// would only manufacture a slow-down the program does not have
+			if n == 1 {
+				s.waitUntil(func() bool { return s.dirsDone }, 200*time.Millisecond)
+			}
+			if n <= 50 {
+				time.Sleep(2 * time.Millisecond)
+			}
 		}
 	case "healer-first":
 		// the validator pauses before each directory / symlink / file until the healer is idle
